@@ -9,6 +9,7 @@ import hashlib
 import json
 import os
 import queue
+import select
 import random
 import re
 import shutil
@@ -66,6 +67,7 @@ class Work:
         self.n = 0
         self.t0 = time.time()
         self._bins = None
+        self.fastdir = None
 
     def sub(self, name=None):
         self.n += 1
@@ -75,6 +77,20 @@ class Work:
 
     def close(self):
         shutil.rmtree(self.dir, ignore_errors=True)
+        if self.fastdir:
+            shutil.rmtree(self.fastdir, ignore_errors=True)
+
+    def fast(self, name):
+        """A scratch directory on tmpfs when there is one (the disk file system serialises
+        directory operations across processes in this sandbox); removed on close."""
+        if self.fastdir is None:
+            base = "/dev/shm" if os.path.isdir("/dev/shm") and os.access("/dev/shm", os.W_OK) else self.dir
+            self.fastdir = os.path.join(base, "verif-%s-%s-%d" % (self.prop, self.tier, os.getpid()))
+            shutil.rmtree(self.fastdir, ignore_errors=True)
+            os.makedirs(self.fastdir)
+        d = os.path.join(self.fastdir, name)
+        os.makedirs(d, exist_ok=True)
+        return d
 
     def bins(self):
         if self._bins is None:
@@ -158,14 +174,25 @@ class Result(dict):
 
 def _prepare_slot(slot, job):
     """Lay the job's files out in a slot directory."""
+    cfg = job.get("cfg") or SHIPPED_CFG
+    keep = set(job["files"]) | {".ti-config"}
     for n in os.listdir(slot):
+        if n in keep and os.path.dirname(n) == "":
+            continue
         p = os.path.join(slot, n)
         if os.path.islink(p) or os.path.isfile(p):
             os.unlink(p)
         else:
             shutil.rmtree(p)
-    cfg = job.get("cfg") or SHIPPED_CFG
-    os.symlink(cfg, os.path.join(slot, ".ti-config"))
+    link = os.path.join(slot, ".ti-config")
+    try:
+        cur = os.readlink(link)
+    except OSError:
+        cur = None
+    if cur != cfg:
+        if cur is not None:
+            os.unlink(link)
+        os.symlink(cfg, link)
     for name, content in job["files"].items():
         p = os.path.join(slot, name)
         if os.path.dirname(name):
@@ -233,7 +260,7 @@ class Worker:
         env["TI_VERIF_WORKER"] = "1"
         env["GOMAXPROCS"] = "2"
         self.p = subprocess.Popen([self.bin], cwd=self.slot, env=env, stdin=subprocess.PIPE,
-                                  stdout=subprocess.PIPE, stderr=subprocess.PIPE)
+                                  stdout=subprocess.PIPE, stderr=subprocess.PIPE, bufsize=0)
         self.errbuf = []
         t = threading.Thread(target=self._drain, args=(self.p,), daemon=True)
         t.start()
@@ -246,6 +273,12 @@ class Worker:
                     del self.errbuf[:200]
         except Exception:
             pass
+
+    def _write_all(self, data):
+        fd = self.p.stdin.fileno()
+        while data:
+            n = os.write(fd, data)
+            data = data[n:]
 
     def stop(self):
         if self.p:
@@ -265,23 +298,30 @@ class Worker:
                "eof_budget": job.get("eof_budget", 10000), "read_budget": job.get("read_budget", 3000000),
                "trace": bool(job.get("trace")), "digest": job.get("digest", "")}
         line = (json.dumps(req) + "\n").encode()
-        box = {}
-
-        def io():
-            try:
-                self.p.stdin.write(line)
-                self.p.stdin.flush()
-                box["resp"] = self.p.stdout.readline()
-            except Exception as e:  # broken pipe: worker died
-                box["err"] = e
-
-        th = threading.Thread(target=io, daemon=True)
-        th.start()
-        th.join(timeout)
-        if th.is_alive():
-            self.stop()
-            return Result(out="", exit=-9, timeout=True, died=True, cls="hang:worker-timeout")
-        resp = box.get("resp")
+        # no thread per job: thread creation is as slow as process creation in this sandbox
+        resp = None
+        try:
+            os.write(self.p.stdin.fileno(), line) if len(line) < 60000 else self._write_all(line)
+            fd = self.p.stdout.fileno()
+            deadline = time.time() + timeout
+            chunks = []
+            while True:
+                left = deadline - time.time()
+                if left <= 0:
+                    self.stop()
+                    return Result(out="", exit=-9, timeout=True, died=True, cls="hang:worker-timeout")
+                r, _, _ = select.select([fd], [], [], left)
+                if not r:
+                    continue
+                data = os.read(fd, 1 << 20)
+                if not data:
+                    break
+                chunks.append(data)
+                if data.endswith(b"\n"):
+                    resp = b"".join(chunks)
+                    break
+        except (BrokenPipeError, OSError):
+            resp = None
         if not resp:
             time.sleep(0.05)
             err = b"".join(self.errbuf).decode("utf-8", "replace")
@@ -310,9 +350,9 @@ class Runner:
         self.work, self.mode = work, mode
         self.plain, self.verif = work.bins()
         if n is None:
-            n = 4 if mode == "blackbox" else 12
+            n = 4
         self.n = n
-        self.slots = [work.sub("slot-%s-%d" % (mode, i)) for i in range(n)]
+        self.slots = [work.fast("slot-%s-%d" % (mode, i)) for i in range(n)]
         self.workers = [Worker(self.verif, s) for s in self.slots] if mode == "worker" else None
         self.count = 0
 
@@ -518,7 +558,7 @@ class Verdict:
         if any(k == key for k, _ in self.violations):
             self.count("violation_repeats")
             return True
-        if len(self.violations) >= 12:
+        if len(self.violations) >= int(os.environ.get("VERIF_MAXVIOL", "12")):
             self.count("violations_not_written")
             return True
         h = hashlib.sha1((key + what).encode()).hexdigest()[:10]
